@@ -14,13 +14,14 @@ pub mod c11;
 pub mod c12;
 pub mod c13;
 pub mod c14;
+pub mod c15;
 pub mod c16;
 pub mod c17;
 pub mod c18;
 pub mod c19;
 pub mod c20;
 
-pub const PROPS: [&str; 19] = ["C01", "C02", "C03", "C04", "C05", "C06", "C07", "C08", "C09", "C10", "C11", "C12", "C13", "C14", "C16", "C17", "C18", "C19", "C20"];
+pub const PROPS: [&str; 20] = ["C01", "C02", "C03", "C04", "C05", "C06", "C07", "C08", "C09", "C10", "C11", "C12", "C13", "C14", "C15", "C16", "C17", "C18", "C19", "C20"];
 
 pub fn lanes(prop: &str) -> Vec<Lane> {
     match prop {
@@ -38,6 +39,7 @@ pub fn lanes(prop: &str) -> Vec<Lane> {
         "C12" => c12::lanes(),
         "C13" => c13::lanes(),
         "C14" => c14::lanes(),
+        "C15" => c15::lanes(),
         "C16" => c16::lanes(),
         "C17" => c17::lanes(),
         "C18" => c18::lanes(),
